@@ -173,6 +173,38 @@ theorem saved_versions_frozen (ops1 ops2 : List Tree.Op) (v : Nat) (root : Optio
   intro r
   simp [Tree.read, h, hv]
 
+/-- `LazyLoadVersion`: a view it returns is exactly a retained saved tree — the latest one for a
+non-positive target, the requested one otherwise — and it fails precisely when the target is newer
+than the tree, nothing was saved yet, or the version is not retained. -/
+theorem lazy_load_spec (t : Tree) (target : Int) :
+    (∀ root v, t.lazyLoadVersion target = .view root v →
+      t.getImmutable v = some root ∧ 0 < t.version ∧ (v : Int) ≤ t.version ∧
+      (target ≤ 0 → v = t.version) ∧ (0 < target → (v : Int) = target)) ∧
+    (t.lazyLoadVersion target = .errTooNew ↔ (t.version : Int) < target) ∧
+    (t.lazyLoadVersion target = .nilTree ↔ ¬ (t.version : Int) < target ∧ t.version = 0) := by
+  unfold Tree.lazyLoadVersion
+  by_cases h1 : (t.version : Int) < target
+  · simp [h1]
+  · by_cases h2 : t.version = 0
+    · rw [if_neg h1, if_pos h2]
+      simp [h2]
+      omega
+    · simp only [h1, h2, if_false]
+      refine ⟨?_, by split <;> simp, by split <;> simp⟩
+      intro root v hv
+      split at hv
+      · cases hv
+      · rename_i r hg
+        injection hv with e1 e2
+        subst e1
+        by_cases h3 : target ≤ 0
+        · simp only [h3, if_true] at hg e2
+          subst e2
+          exact ⟨hg, by omega, by omega, fun _ => rfl, fun h => by omega⟩
+        · simp only [h3, if_false] at hg e2
+          subst e2
+          exact ⟨hg, by omega, by omega, fun h => absurd h h3, fun _ => by omega⟩
+
 /-! ## Height -/
 
 /-- A tree of height `h` satisfying the invariant has at least `fib (h+2)` keys (so the height is
